@@ -13,6 +13,8 @@ Space
 SPELLINGS: int, canonical str, and the non-canonical strings that int() maps to the same level: zero padded "%02d" /
 "%03d" and "+%d" (levels >= 0), leading space, trailing space, trailing newline.  A string that int() maps to level L
 is a request for level L.  Strings that int() rejects ("7.0", "Q") are code names and not part of the space.
+CONF['DEFAULT_API'] is an explicit dimension (shipped: 16, 23, 19; synthetic: 1..5) and is changed before every
+call after a decoy call made under another default (history): a default captured at import time or at the first call shows.
 Reference (the statement): permissions -> the requested level if available, else the highest available level below
 it, else (outside the available range) the lowest / highest available level; mappings -> the requested level if
 available, else DEFAULT_API.  The returned dict must equal the JSON content of that level's file.
@@ -36,6 +38,7 @@ UNIVERSE = [1, 2, 3, 4, 5]
 SYN_REQ = list(range(-1, 8))
 SHIPPED_REQ = list(range(-5, 101))
 RES = ["aosp_permissions", "api_permission_mappings"]
+SHIPPED_DEFAULTS = [16, 23, 19]     # CONF['DEFAULT_API'] on the shipped data (16 is the shipped value)
 # how a level is written: int, canonical str, and the non-canonical spellings that int() accepts
 TYPES = ["int", "str", "pad2", "pad3", "plus", "lsp", "tsp", "nl"]
 
@@ -75,9 +78,11 @@ MANIFEST = {
 
 
 def space(ctx):
-    return {"spellings": {"int": 7, "str": "7", "pad2": "07", "pad3": "007", "plus": "+7", "lsp": " 7", "tsp": "7 ", "nl": "7\n",
+    return {"decoy_history": "whenever resource or default change (always in a replay): CONF['DEFAULT_API'] = the next value of the default alphabet and "
+                             "load_api_specific_resource_module(resource, level+1), result ignored; then the default of the case is set",
+            "spellings": {"int": 7, "str": "7", "pad2": "07", "pad3": "007", "plus": "+7", "lsp": " 7", "tsp": "7 ", "nl": "7\n",
                           "note": "pad*/plus only for levels >= 0; a spelling equal to the canonical str is not repeated"},
-            "shipped": {"resources": RES, "requests": [SHIPPED_REQ[0], SHIPPED_REQ[-1]], "types": TYPES,
+            "shipped": {"resources": RES, "requests": [SHIPPED_REQ[0], SHIPPED_REQ[-1]], "default_api": SHIPPED_DEFAULTS, "types": TYPES,
                         "entry_points": ["load_api_specific_resource_module", "load_permissions(permissions|groups)",
                                          "load_permission_mappings"]},
             "synthetic": {"universe": UNIVERSE, "subsets": 2 ** len(UNIVERSE) - 1, "default_api": UNIVERSE,
@@ -85,7 +90,7 @@ def space(ctx):
 
 
 def shards(ctx):
-    return [("shipped", r) for r in RES] + [("syn", mask) for mask in range(1, 2 ** len(UNIVERSE))]
+    return [("shipped", r, d) for r in RES for d in SHIPPED_DEFAULTS] + [("syn", mask) for mask in range(1, 2 ** len(UNIVERSE))]
 
 
 # ------------------------------------------------------------------------------------ reference
@@ -126,6 +131,8 @@ class Env:
         self.saved_file = asr.__file__
         self.saved_default = androconf.CONF["DEFAULT_API"]
         self.tmp = None
+        self.decoyed_for = None
+        self.decoys = 0
         if universe == "shipped":
             self.root = os.path.dirname(os.path.realpath(asr.__file__))
         else:
@@ -152,22 +159,24 @@ class Env:
             shutil.rmtree(self.tmp, ignore_errors=True)
 
 
-def cases(universe, res_filter=None):
+def cases(universe, res_filter=None, default_filter=None):
     """(via, res, default, req, typ) simplest first."""
     if universe == "shipped":
-        defaults, reqs = [None], SHIPPED_REQ
+        defaults, reqs = SHIPPED_DEFAULTS, SHIPPED_REQ
     else:
         defaults, reqs = UNIVERSE, SYN_REQ
     for res in RES:
         if res_filter and res != res_filter:
             continue
         for default in defaults:
+            if default_filter and default != default_filter:
+                continue
             for req in reqs:
                 for typ in TYPES:
                     if spell(req, typ) is not None:
                         yield ("module", res, default, req, typ)
         vias = ["load_permissions:permissions", "load_permissions:groups"] if res == RES[0] else ["load_permission_mappings"]
-        for via in vias:
+        for via in vias if default_filter in (None, defaults[0]) else ():
             for req in reqs:
                 for typ in TYPES:
                     if spell(req, typ) is not None:
@@ -178,9 +187,20 @@ def evaluate(env, case):
     """-> (position, selected_level_or_None, key_or_None, message_or_None)"""
     via, res, default, req, typ = case
     conf = env.androconf.CONF
-    if default is not None:
-        conf["DEFAULT_API"] = default
-    dflt = conf["DEFAULT_API"]
+    # decoy history: another default level and another request go through the main entry point first (result ignored),
+    # then the default is changed to the one of this case: state kept from an earlier call or from import time shows
+    # (done whenever resource or default differ from the previous case of this process - always in a replay; in
+    # between, the preceding cases of the enumeration are the history)
+    if env.decoyed_for != (res, default):
+        pool = SHIPPED_DEFAULTS if env.tmp is None else UNIVERSE
+        conf["DEFAULT_API"] = pool[(pool.index(default) + 1) % len(pool)]
+        try:
+            env.androconf.load_api_specific_resource_module(res, req + 1)
+        except Exception:      # noqa
+            pass
+        env.decoyed_for = (res, default)
+        env.decoys += 1
+    conf["DEFAULT_API"] = dflt = default
     arg = spell(req, typ)
     # ---- reference
     if res == RES[0]:
@@ -237,12 +257,12 @@ def run_shard(ctx, shard):
     universe = shard[1] if shard[0] == "syn" else "shipped"
     env = Env(universe)
     try:
-        if shard[0] == "shipped":
+        if shard[0] == "shipped" and shard[2] == SHIPPED_DEFAULTS[0]:
             files = env.perm if shard[1] == RES[0] else env.maps
             acc.count("shipped_levels_%s" % shard[1], len(files))
             acc.count("shipped_distinct_contents_%s" % shard[1],
                       len({json.dumps(content(p), sort_keys=True) for p in files.values()}))
-        for case in cases(universe, shard[1] if shard[0] == "shipped" else None):
+        for case in cases(universe, *((shard[1], shard[2]) if shard[0] == "shipped" else ())):
             via, res, default, req, typ = case
             pos, level, key, msg = evaluate(env, case)
             nontrivial = (universe, case) if (pos != "exact" or typ != "int") else None
@@ -253,10 +273,11 @@ def run_shard(ctx, shard):
                 acc.count("synthetic_content_compared")
             if key:
                 acc.violation(key, {"universe": universe, "case": list(case)}, msg)
-        if shard == ("shipped", RES[0]):
+        if shard == ("shipped", RES[0], SHIPPED_DEFAULTS[0]):
             acc.sample({"resource": RES[0], "available": sorted(env.perm), "request": 20, "selected": select(set(env.perm), 20)[0]})
         if shard == ("syn", 0b10101):
             acc.sample({"synthetic available": [1, 3, 5], "request": "4", "selected": 3, "request2": 7, "selected2": 5})
+        acc.count("decoy_calls", env.decoys)
     finally:
         env.restore()
     return acc
